@@ -21,6 +21,30 @@ import vlib
 from vlib import log
 
 
+def failing_theorems(out):
+    """names of the declarations in which `lake build` reported errors (error: <file>:<line>:<col>: …):
+    the nearest `theorem|lemma|def|example|instance` above the reported line"""
+    import re
+    names = []
+    for m in re.finditer(r'error: ([^\s:]+\.lean):(\d+):\d+', out):
+        path, line = m.group(1), int(m.group(2))
+        full = path if os.path.isabs(path) else os.path.join(vlib.LEAN, path)
+        try:
+            src = open(full).read().splitlines()
+        except OSError:
+            continue
+        name = None
+        for k in range(min(line, len(src)) - 1, -1, -1):
+            mm = re.match(r'\s*(?:@\[[^\]]*\]\s*)?(?:private\s+|protected\s+|noncomputable\s+)*(theorem|lemma|def|example|instance|abbrev)\s+([^\s:({\[]+)?', src[k])
+            if mm:
+                name = f"{mm.group(1)} {mm.group(2) or '(anonymous)'}"
+                break
+        ent = f'{os.path.relpath(full, vlib.LEAN)}:{line} in {name}' if name else f'{os.path.relpath(full, vlib.LEAN)}:{line}'
+        if ent not in names:
+            names.append(ent)
+    return names[:40]
+
+
 def load_plugin(pid):
     return importlib.import_module('props.' + pid.lower()).make()
 
@@ -92,10 +116,13 @@ def run(pid, tier, seed, replay, t0):
             ok2, out2 = vlib.lake_build(['smoothdrv'])
             if not ok2:
                 # the executable model itself does not build (e.g. a generated table changed shape)
-                broken.append({'what': 'obligation', 'name': 'lake build smoothdrv', 'detail': '\n'.join(failed)})
+                broken.append({'what': 'obligation', 'name': 'lake build smoothdrv', 'theorems': failing_theorems(out + out2),
+                               'detail': '\n'.join(failed)})
                 return verdict(P, ctx, broken, findings, {}, t0, proofs=None, fatal_model=True)
-            broken.append({'what': 'obligation', 'name': 'lake build ' + ' '.join(P.lean_targets),
-                           'detail': '\n'.join(failed)})
+            thms = failing_theorems(out)
+            broken.append({'what': 'obligation', 'name': 'lake build ' + ' '.join(P.lean_targets) +
+                           (' — no longer checks: ' + '; '.join(thms[:6]) if thms else ''),
+                           'theorems': thms, 'detail': '\n'.join(failed)})
 
         # ---- 2. proofs audit
         proofs = {'obligations': 0, 'discharged': 0, 'theorems': [], 'axioms_seen': []}
